@@ -709,36 +709,51 @@ impl<'a> Walker<'a> {
             }
             best
         };
-        let (mut d_full, est_full) = pick(false, self);
+        let (d_full, est_full) = pick(false, self);
         let (d_core, est_core) = pick(true, self);
         let mut probe = probe;
         let memo_ok = self.use_memo && probe.obj.fingerprint().is_some();
-        if memo_ok {
-            d_full = max_depth; // merging of byte-identical objects makes the full alphabet feasible
-        }
         self.drop_check(probe, &[]);
         let mut out = json!({"constructible": true, "depth_full": d_full, "estimate_full": est_full,
-                             "depth_core": d_core, "estimate_core": est_core});
+                             "depth_core": d_core, "estimate_core": est_core, "exhaustive_by_merging": false});
+        // 1. full alphabet to the maximal depth, merging byte-identical objects (inline / relocatable flavours)
+        if memo_ok {
+            let before = self.stats.paths;
+            crate::crash::reset();
+            self.memo.clear();
+            if let Some(live) = self.fresh(&[]) {
+                let mut b = (budget as i64) * 15;
+                let mut path = vec![];
+                self.explore(&mut path, live, max_depth, false, &mut b);
+                out["paths_merging"] = json!(self.stats.paths - before);
+                out["merged_by_memory_image"] = json!(self.merged);
+                out["memory_images"] = json!(self.memo.len());
+                if b > 0 {
+                    out["exhaustive_by_merging"] = json!(true);
+                    out["depth_full"] = json!(max_depth);
+                    out["paths_full"] = out["paths_merging"].clone();
+                    return out;
+                }
+                out["truncated"] = json!(true);
+            }
+            self.memo.clear();
+        }
+        // 2. otherwise (heap flavours, or the merging run exceeded its budget: depth-first order would leave the
+        // later operations unexplored): plain enumeration, full alphabet to the depth that fits, core alphabet beyond
+        self.use_memo = false;
         for (core, depth) in [(false, d_full), (true, d_core)] {
             if depth == 0 || (core && d_core <= d_full) {
                 continue;
             }
             let before = self.stats.paths;
             crate::crash::reset();
-            self.memo.clear();
             if let Some(live) = self.fresh(&[]) {
-                let mut b = if memo_ok { (budget as i64) * 15 } else { (budget as i64) * 2 };
+                let mut b = (budget as i64) * 2;
                 let mut path = vec![];
                 self.explore(&mut path, live, depth, core, &mut b);
-                if b <= 0 {
-                    out["truncated"] = json!(true);
-                }
             }
             out[if core { "paths_core" } else { "paths_full" }] = json!(self.stats.paths - before);
         }
-        out["merged_by_memory_image"] = json!(self.merged);
-        out["memory_images"] = json!(self.memo.len());
-        out["exhaustive_by_merging"] = json!(memo_ok && out.get("truncated").is_none());
         out
     }
 
